@@ -30,6 +30,22 @@ Theorem probe_equals_fresh : forall evs xs0 t0 who probe,
 Proof. exact Proofs.probe_equals_fresh. Qed.
 Print Assumptions probe_equals_fresh.
 
+(* the data flow behind it: a whole batch depends on the engine object only through placeholder, version,
+   attribute policy and identity (never the asynchronous flag), and process_request has written all four from
+   the request when the batch starts *)
+Theorem handlers_read_four_fields : forall cont its xs t t', same_view t t' ->
+  fst (fst (run_items_t cont xs t its)) = fst (fst (run_items_t cont xs t' its)) /\
+  snd (fst (run_items_t cont xs t its)) = snd (fst (run_items_t cont xs t' its)) /\
+  same_view (snd (run_items_t cont xs t its)) (snd (run_items_t cont xs t' its)).
+Proof. exact Proofs.run_items_t_view. Qed.
+Print Assumptions handlers_read_four_fields.
+
+Theorem batch_view_from_request : forall t who v b,
+  let t' := set_ident (set_async (set_version (set_ph (set_ident t nobody) None) v) b) who in
+  t_ph t' = None /\ t_ver t' = v /\ t_apv t' = v /\ t_ident t' = who.
+Proof. exact Proofs.batch_view_from_request. Qed.
+Print Assumptions batch_view_from_request.
+
 (* the statement is not vacuous: requests do leave placeholder, version, attribute policy and identity behind *)
 Example leftovers :
   snd (snd (process_request init_xstore fresh_transient 2
